@@ -24,7 +24,8 @@ import multiprocessing as mp
 ROOT = pathlib.Path(__file__).resolve().parents[2]
 EVIDENCE_DIR = ROOT / "evidence"
 REPLAY_DIR = ROOT / "replays"
-FINDINGS = ROOT / "known_findings.jsonl"
+# development aid only (never set by a MANIFEST command): try a candidate findings file before it is committed
+FINDINGS = pathlib.Path(os.environ.get("VERIF_FINDINGS_FILE") or (ROOT / "known_findings.jsonl"))
 SCHEMA = pathlib.Path("/root/.vp/EVIDENCE.schema.json")
 SCHEMA_FALLBACK = ROOT / "vf" / "core" / "EVIDENCE.schema.json"
 
